@@ -153,7 +153,7 @@ def check(pid, tier, scratch, replay):
                samples=[dict(schedule=j['opt']['actions'], tasks=j['opt']['tasks'], final=j['opt']['final']) for j in jobs[:4]],
                free_running_traces_judged_by_TLC=len(tr), free_running_trace_events=events, free_running_without_stop_request=sum(1 for i, _ in tr if jobs[i]['opt']['final'] == 'idle'),
                trace_spec='spec/StopTrace.tla (every trace accepted: all events consumed)',
-               free_running_traces_with_injected_faults_judged_by_tlc=tjudged, fault_trace_judge_states=tstates,
+               free_running_traces_with_injected_faults_judged_by_tlc=tjudged, trace_lines_by_event=dict(sorted(props.TRACE_EVENTS.items())), fault_trace_judge_states=tstates,
                model_runs=runs, maximal_behaviours_of_model=total, inconclusive=infra,
                liveness_checked=['StopReturns', 'TipsProcessed', 'TasksFinish'],
                rule='every maximal behaviour of spec/Stop.tla for three scenarios (removal + a tip, two-batch import, tips only); those whose steps after close(quit) are forced (no select with two ready cases) are replayed: each model action releases the goroutine(s) performing it from its scheduling gate and waits for the next gate; the final state says whether Stop must have returned')
